@@ -139,6 +139,34 @@ CHECKS = {
         design="§5 C19", technique="Lean 4 proof (case analysis over a Python value universe, induction over the closure "
                                    "loops, mutual structural induction over nested lists for np.asarray) + differential "
                                    "correspondence of the hand-written model with the real setters, Grid and Box"),
+    "C09": dict(
+        text="Lean 4 theorems absolute_spec / centered_spec / stacked_spec / position_spec / ammo_spec (bundled as "
+             "C09_observers): for every grid world satisfying the consistency invariant (any size, overlap pile-ups, "
+             "dead agents, blocking layouts), every agent (supported or not; observer position inside the grid, positive "
+             "encodings), every view range (also beyond the grid), both observe_self values and every oracle tape, the "
+             "model of get_obs (Model/Observers.lean: the local_grid slicing of create_grid_and_mask, C10's mask reused, "
+             "the row-major double loop with one np.random.choice per reportable cell, the paste of the window into the "
+             "rows x cols array, the per-encoding counting) never raises and its observation satisfies the decidable "
+             "judge specC09 written from the property text: an entry is -2 iff the cell is hidden by C10's rule (or "
+             "outside the view window in the absolute view), -1 iff visible and outside the grid (centred views) / iff "
+             "the observer is among the occupants of that visible cell (absolute view; a dead observer sees none: "
+             "absolute_dead_observer_no_minus_one, an active one exactly at its position: absolute_own_cell), 0 iff "
+             "visible with no reportable occupant, otherwise the encoding of a reportable occupant of exactly that cell "
+             "(never the observer when observe_self is off); stacked entries equal the exact count per encoding; the "
+             "absolute view is indexed by true grid coordinates (paste_spec); position and ammunition are the agent's. "
+             "Key lemmas window_embedding (local index <-> grid coordinate incl. clipping at each border), convolve_ok "
+             "(every entry comes from the cell function on some tape), choice_mem (a choice is a member, for all "
+             "tapes); *_in_declared_space (whatever the judge accepts lies in the declared Box). Tie: per-call "
+             "refinement - each real observer is constructed over a real Grid/agents world and get_obs(agent) is run "
+             "under the scripted oracle: the observer on every cell of every grid up to 5x5 (thorough 7x7, incl. 1xN, "
+             "Nx1), every view range 0..FULL+1 and 'FULL', random populations with blockers / pile-ups / dead agents / "
+             "dead observer, full boards with one blocker at every window offset, pile-ups of up to four encodings "
+             "with every first tape value, random worlds with unsupported agents; the whole observation must equal the "
+             "model's and specC09 is evaluated by the driver on the implementation's observation; membership of the "
+             "observation and of the null observation in agent.observation_space is checked on the real objects.",
+        design="§5 C09", technique="Lean 4 proof (window/paste index arithmetic by omega, tape-threading loop "
+                                   "characterised entry by entry, reuse of the C10 mask theorems) + per-call "
+                                   "differential correspondence with the five real observers under a scripted oracle"),
 }
 
 PENDING = {
